@@ -139,6 +139,9 @@ func (c *rlComp) Gen(rng *rand.Rand, idx int, tier string, targeted bool) hlib.H
 		}
 		used[p] = true
 		avg := hlib.Pick(rng, 1, 1, 2, 3, 5, 10, 100)
+		if rng.Intn(15) == 0 {
+			avg = p*2 + rng.Int63n(p) // more than one token per nanosecond: period/average truncates to 0 (clamped to 1 ns)
+		}
 		var burst int64
 		switch rng.Intn(4) {
 		case 0:
@@ -152,6 +155,9 @@ func (c *rlComp) Gen(rng *rand.Rand, idx int, tier string, targeted bool) hlib.H
 		}
 		if targeted {
 			burst = 1 + rng.Int63n(5*avg)
+		}
+		if avg > p {
+			burst = 1 + rng.Int63n(6)
 		}
 		rates = append(rates, rateSpec{p, avg, burst})
 	}
